@@ -18,6 +18,7 @@ import (
 	"github.com/NethermindEth/juno/db"
 	"github.com/NethermindEth/juno/db/memory"
 	"github.com/NethermindEth/juno/encoder"
+	"github.com/NethermindEth/juno/migration"
 	"github.com/NethermindEth/juno/migration/blocktransactions/txlayout"
 	"github.com/NethermindEth/juno/pruner"
 
@@ -170,6 +171,11 @@ func fullDB(seed int64, txCounts []int, pruneTo uint64) (*prepared, error) {
 	}
 	if pruneTo > 0 {
 		if err := pruner.PruneBlockDataUpto(batch, pruneTo); err != nil {
+			return nil, err
+		}
+		// pruning only ever starts after the block-transactions migration (index 0) is applied
+		md := migration.SchemaMetadata{CurrentVersion: 0b0001, LastTargetVersion: 0b1001}
+		if err := migration.WriteSchemaMetadata(batch, md); err != nil {
 			return nil, err
 		}
 	}
@@ -341,7 +347,7 @@ func coreHeight(r db.KeyValueReader) (uint64, error) { return core.GetChainHeigh
 // ------------------------------------------------------------------ the gate
 
 type event struct {
-	kind string // "arrive" (an ingestor is about to ingest range r), "commit" (a non-empty batch was written), "done"
+	kind string // "arrive" (an ingestor is about to ingest range r), "commit" (a batch was written), "done"
 	r    uint64
 	n    int
 	err  error
@@ -419,13 +425,9 @@ func (g *gateStore) onWrite(n int, kind string) {
 		g.mu.Unlock()
 		return
 	}
-	size := 0
 	isBatch := strings.HasPrefix(kind, "batch(")
-	if isBatch {
-		fmt.Sscanf(kind, "batch(%d)", &size)
-	}
 	kill := false
-	if isBatch && size > 0 && g.killNext {
+	if isBatch && g.killNext {
 		g.killNext = false
 		kill = true
 	}
@@ -435,7 +437,8 @@ func (g *gateStore) onWrite(n int, kind string) {
 	} else if g.Store.Dead() {
 		g.setOn(false) // an armed crash fired: nobody may stay parked
 	}
-	if isBatch && size > 0 {
+	if isBatch {
+		// every ingestor hands over exactly one batch when it is done, also an empty one
 		g.events <- event{kind: "commit", n: n}
 	}
 }
